@@ -1013,3 +1013,37 @@ pub fn target_route_case(reg: &Registry, fam_name: &str, variant: &str, mask: bo
     }
     Some(GridCase { cfg, ops, label: format!("{} {} routes mask_aes={}", fam_name, variant, mask) })
 }
+
+/// One short history per family for the interpreter's family sweep (every crate on every simulated target):
+/// construct, multi-block buffer-to-buffer call, single-block decrypt, clone, in/out call on the clone,
+/// and for families with halves a by-reference conversion to the decrypt-only type.
+pub fn target_sweep_case(reg: &Registry, fam_name: &str, seed: u64) -> Option<GridCase> {
+    use crate::registry::{Dir, Role, Shape};
+    let f = reg.family(fam_name)?;
+    let fam = &reg.families[f];
+    let mut rng = Prng::new(seed ^ 0x5EE9 ^ (f as u64) << 16);
+    // the default build and the last listed variant
+    let mut vs = vec![0usize];
+    if fam.variants.len() > 1 {
+        vs.push(fam.variants.len() - 1);
+    }
+    let mut variants = std::collections::BTreeMap::new();
+    variants.insert(f, vs);
+    let cfg = RunCfg { variants, mask: false, tasks: 1, strict_arena: false };
+    let bs = fam.block;
+    let klen = *rng.pick(&fam.key_lens);
+    let key = rng.bytes(klen);
+    let mut ops = vec![Op::New { id: 1, task: 0, fam: f, role: Role::Both, key: key.clone(), fixed: false }];
+    ops.push(Op::Call { id: 1, task: 0, dir: Dir::Enc, shape: Shape::BlocksB2b, n: 3, in_off: 5, out_off: (5 + 3 * bs + 3) as u32, data: crate::workload::related_blocks(&mut rng, 3, bs) });
+    ops.push(Op::Call { id: 1, task: 0, dir: Dir::Dec, shape: Shape::Block, n: 1, in_off: 1024 + 9, out_off: 1024 + 9, data: rng.bytes(bs) });
+    ops.push(Op::Clone { id: 2, task: 0, src: 1 });
+    ops.push(Op::Drop { id: 1, task: 0 });
+    ops.push(Op::Call { id: 2, task: 0, dir: Dir::Dec, shape: Shape::BlocksInout, n: 2, in_off: 2048, out_off: 2048, data: rng.bytes(2 * bs) });
+    if fam.split {
+        ops.push(Op::New { id: 3, task: 0, fam: f, role: Role::Enc, key, fixed: false });
+        ops.push(Op::Conv { id: 4, task: 0, src: 3, to: Role::Dec, by_ref: true });
+        ops.push(Op::Drop { id: 3, task: 0 });
+        ops.push(Op::Call { id: 4, task: 0, dir: Dir::Dec, shape: Shape::Blocks, n: 2, in_off: 4096 + 3, out_off: 4096 + 3, data: rng.bytes(2 * bs) });
+    }
+    Some(GridCase { cfg, ops, label: format!("{} sweep", fam_name) })
+}
